@@ -17,14 +17,25 @@
 #define CRASH_TAG "-"
 #endif
 static std::string g_current_case;
-static inline void current_case(std::string const& s) { g_current_case = s; }
+#ifndef CASE_TIMEOUT_S
+#define CASE_TIMEOUT_S 60
+#endif
+// every announced case re-arms a watchdog: a case that does not finish (the real code hangs, e.g. a record that is re-read for
+// ever) is a failed obligation too, reported like a crash
+static inline void current_case(std::string const& s) { g_current_case = s; alarm(CASE_TIMEOUT_S); }
+static void on_case_timeout(int)
+{
+  char b[2048]; int n = snprintf(b, sizeof b, "\nOBL native.hang FAILURE 1 %s - | every enumerated case finishes (the real code does not hang) | no result after %d s on %s\n", CRASH_TAG, CASE_TIMEOUT_S, g_current_case.c_str());
+  if (n > 0) { ssize_t w = write(1, b, (size_t)(n < (int)sizeof b ? n : (int)sizeof b - 1)); (void)w; }
+  _exit(1);
+}
 static void on_crash_signal(int sig)
 {
   char b[2048]; int n = snprintf(b, sizeof b, "\nOBL native.crash FAILURE 1 %s - | the real code runs to completion on every enumerated input (no signal) | signal %d on %s\n", CRASH_TAG, sig, g_current_case.c_str());
   if (n > 0) { ssize_t w = write(1, b, (size_t)(n < (int)sizeof b ? n : (int)sizeof b - 1)); (void)w; }
   _exit(1);
 }
-static int install_crash_handler() { signal(SIGSEGV, on_crash_signal); signal(SIGBUS, on_crash_signal); signal(SIGABRT, on_crash_signal); signal(SIGFPE, on_crash_signal); return 0; }
+static int install_crash_handler() { signal(SIGALRM, on_case_timeout); signal(SIGSEGV, on_crash_signal); signal(SIGBUS, on_crash_signal); signal(SIGABRT, on_crash_signal); signal(SIGFPE, on_crash_signal); return 0; }
 static int g_crash_handler_installed = install_crash_handler();
 struct Obl { std::string name, tag, known, clause; long evals = 0; bool failed = false; std::string first; };
 static inline std::string show(std::string const& s)
